@@ -94,7 +94,7 @@ struct Interp {
         const std::string &n = op.name;
         if (n == "set") {
             std::string k = key(op, 0), v = kVals[(size_t)(((op.i(2) % 6) + 6) % 6)];
-            int aftermath = (int)(((op.i(3) % 3) + 3) % 3);
+            int aftermath = (int)(((op.i(3) % 5) + 5) % 5);
             bool existed = cur.count(k) > 0;
             if (armed) { interesting = true; }
             if (after_remove_largest && (cur.empty() || k > cur.rbegin()->first)) ctx.label("remove-largest-then-set-larger");
@@ -103,7 +103,9 @@ struct Interp {
                 int r = LA(c03_set(c, k.c_str(), v.c_str(), aftermath));
                 VT_CHECK(ctx, r == (existed ? 1 : 0), "mismatch", "set-return:" << kCls[c] << "; set(" << k << ") returned " << r << " but the key " << (existed ? "existed" : "was new"));
             }
-            cur[k] = v;
+            if (!(aftermath == 3 && existed)) cur[k] = v;   // set(m, k, get(m, k)) leaves the entry as it is
+            if (aftermath == 3 && existed) ctx.label("set:value-is-the-map's-own-object");
+            if (aftermath == 4) ctx.label("set:pair-form");
             if (existed) { ctx.label("set:overwrite"); armed = true; } else ctx.label("set:fresh");
             if (aftermath == 1) ctx.label("caller-mutates-key-and-value-after-set");
             if (aftermath == 2) ctx.label("caller-clears-key-and-value-after-set");
@@ -175,7 +177,7 @@ struct Interp {
 rc::Gen<Op> gen_op() {
     return rc::gen::exec([]() {
         int k = (int)*range(0, 99);
-        if (k < 40) return mk("set", {*range(0, 9), *range(0, 7), *range(0, 5), *range(0, 2)});
+        if (k < 40) return mk("set", {*range(0, 9), *range(0, 7), *range(0, 5), *range(0, 4)});
         if (k < 52) return mk("get", {*range(0, 9), *range(0, 7)});
         if (k < 70) return mk("remove", {*range(0, 9), *range(0, 7)});
         if (k < 75) return mk("has_key", {*range(0, 9), *range(0, 7)});
